@@ -34,7 +34,7 @@ P = {
          ['bit-identical reruns, arbitrary call sequences, reusable-container sharing'], '5 C12'),
  'C13': ('Proof that LocMinSorter is the strict weak order (y desc, x asc); bounded check that AddPaths_ flags exactly the cyclic local extrema independent of start vertex, duplicates and closing vertex.',
          ['order-independence of the sweep, all algebraic identities and transformations'], '5 C13'),
- 'C14': ('Every assigns clause of every function under contract names only parameters and object members (CBMC checks every write against it, so a static scratch variable fails an assigns obligation); supporting static scan: no mutable object of static storage in the anchored translation units.',
+ 'C14': ('Every assigns clause of every function under contract names only parameters and object members (CBMC checks every write against it, so a static scratch variable fails an assigns obligation); supporting static scan (nm on the freshly built objects, with and without USINGZ): every symbol in a writable section is std::__ioinit, declared const in the sources, or a string-literal pointer that is never written.',
          ['interleavings (CBMC has no threads); nothing here explores schedules'], '5 C14'),
  'C15': ('Proof of SetZ (assigns only ip.z, subject edge first, z pre-filled from a coincident end point else default); every x/y contract re-proved with -DUSINGZ.',
          ['equality of whole solutions across builds; the "every solution vertex" clause'], '5 C15'),
